@@ -152,7 +152,9 @@ def describeRT (env : Env) : Nat → RT → DescCtx → (TypeDesc × DescCtx)
       let (is, c2) := ix.foldl (fun (acc : List (Option String × String) × DescCtx) p =>
         let (dk, c') := go p.1 acc.2
         let (dv, c'') := go p.2 c'
-        (acc.1 ++ [(dv.docText, "[K in " ++ dk.typeExpr ++ "]" ++ (if isOptional p.2 then "?" else "") ++ ": " ++ dv.typeExpr)], c'')) ([], c1)
+        -- the key variable avoids the names the description refers to (fix D97): K, K_, K__, …
+        let keyVar := (List.range 8).foldl (fun (k : String) _ => if c''.refCounts.any (fun q => q.1 == k) then k ++ "_" else k) "K"
+        (acc.1 ++ [(dv.docText, "[" ++ keyVar ++ " in " ++ dk.typeExpr ++ "]" ++ (if isOptional p.2 then "?" else "") ++ ": " ++ dv.typeExpr)], c'')) ([], c1)
       let members := ms ++ is
       if members.any (fun m => m.1.isSome) then
         if members.isEmpty then (⟨"{}", none⟩, c2)
